@@ -120,6 +120,15 @@ b('C09', 'max_by_swapped_compare', 'src/par_iter.rs', """        self.reduce(|x,
             Ordering::Less => x,
             Ordering::Greater | Ordering::Equal => y,
         })""")
+m('C09', 'splitvec_reserves_before_sequential_branch', 'src/par/collect_into/split_vec.rs', """        if par_map.params().is_sequential() {
+            // nothing is written concurrently in sequential mode: extend in place rather than
+            // reserving concurrent capacity that the computation will never use
+            let (_, iter, map) = par_map.destruct();
+            return self.seq_extend(iter.into_seq_iter().map(map));
+        }
+
+""", "", 'C09-NOCONC')
+m('C09', 'splitvec_sequential_route_reverses', 'src/par/collect_into/split_vec.rs', 'return self.seq_extend(iter.into_seq_iter().map(map));', 'return self.seq_extend(iter.into_seq_iter().map(map).collect::<Vec<_>>().into_iter().rev());', 'C09-SEQSHAPE')
 # ------------------------------------------------------------------------------------------ C10
 m('C10', 'no_skip_to_end_chunk', 'src/core/map_fil_find.rs', """                if result.is_some() {
                     iter.skip_to_end();
